@@ -22,7 +22,7 @@ ORDER_PRE = "From BX Require Import Base.Prelude Model.Order.\nLocal Open Scope 
 # defect flags of the model that are listed as OPEN findings (cfg_current); a fixed finding leaves this map
 FLAG_OF_FINDING = {
     "C20-raft-replay-future-entry": "restart",
-    # "snap" (d_snap_unexecuted) and "solo10" (d_solo_commit10) are fixed in /repo: their flags are off for good;
+    # "snap" (d_snap_unexecuted), "snapin" (d_snapin_lost) and "solo10" (d_solo_commit10) are fixed in /repo: their flags are off for good;
     # if either defect comes back the implementation's trace fails predicate 4 / 6 and no allowed flag set explains it
 }
 
@@ -185,6 +185,8 @@ def gen_raft(r, style=None, maxops=30):
         elif k < 0.90 and style in ("crash", "replay", "gap", "snap", "mixed", "leader"):
             ops.append(["crash"])
             leader_self = False
+        elif k < 0.94 and style in ("snap", "mixed", "crash", "plain"):
+            ops.append(["snapin", r.choice([1, 2, 3, 5, 50])])
         elif style in ("leader", "mixed", "plain"):
             t = fresh()
             local = 1 if r.random() < 0.6 else 0
@@ -248,8 +250,11 @@ def gen_crashpoints(r):
 
 
 def gdef(d):
-    return "{| d_restart_height_only := %s; d_snap_unexecuted := %s; d_solo_commit10 := %s |}" % tuple(
-        "true" if d.get(k) else "false" for k in ("restart", "snap", "solo10"))
+    return "(mkD %s %s %s %s)" % tuple("true" if d.get(k) else "false" for k in ("restart", "snap", "solo10", "snapin"))
+
+
+def gib(ib):
+    return "(%d, (%d, %s))" % (ib[0], ib[1]["h"], glist(ib[1]["txs"]))
 
 
 def gblk(b):
@@ -262,10 +267,24 @@ def gobs(st):
         glist(st.get("bai") or [], lambda p: "(%d, %d)" % (p[0], p[1])))
 
 
+def canon_index(init, log):
+    """height -> 1-based index of the log entry that the canonical chain accepts for it"""
+    out, c = {}, init
+    for i, e in enumerate(log):
+        if e[0] == 1 and e[1] == c + 1:
+            c = e[1]
+            out[c] = i + 1
+    return out
+
+
 def raft_resolve(h, t):
-    """-> (log as python list of (kind,h,txs), model ops as strings, observations) from a history and its trace"""
+    """-> (log as python list of (kind,h,txs,origin), model ops as strings, observations) from a history and its trace"""
     log, ops = [], []
     steps = t["steps"]
+
+    def ghost(evs):
+        ci = canon_index(h["init"], log)
+        return glist([(ci.get(b["h"], 0), b) for b in evs], gib)
     for op, st in zip(h["ops"], steps[1:]):
         name = op[0]
         if name in ("ent", "entp"):
@@ -285,7 +304,12 @@ def raft_resolve(h, t):
         elif name == "report":
             ops.append("OReport %d" % st["r"][0])
         elif name == "crash":
-            ops.append("OCrash")
+            ops.append("OCrash %s" % ghost(st["ev"]))
+        elif name == "snapin":
+            if st["r"][0] == 1:
+                ops.append("OSnapIn %d %s" % (st["r"][1], ghost(st["ev"])))
+            else:
+                ops.append("ONop")
         elif name == "tx":
             ops.append("OPropose %d" % len(st.get("prop") or []))
         else:
@@ -360,7 +384,7 @@ def real_to_model(h, t):
         elif name == "report":
             ops.append("OReport %d" % r[0]); obs.append(st)
         elif name == "crash":
-            seq = ["OCrash"] + catch_up(st, True, after_crash_from=prev_snap)
+            seq = ["OCrash []"] + catch_up(st, True, after_crash_from=prev_snap)
             ops += seq
             if len(seq) > 1 and seq[1].startswith("OReady") and seq[1].endswith("None"):
                 # commit events of a restart come from the replay Ready; the election entry is empty
@@ -568,9 +592,12 @@ def decide_raft(ctx, known, h, t, v):
     if v[0] == 2:
         p, bits = v[1] % 10, v[1] // 10
         has_crash = any(op[0] == "crash" for op in h["ops"])
-        if p in (2, 3) and bits in (1, 3) and has_crash and log_has_future_entry(h, t) and "C20-raft-replay-future-entry" in known:
+        has_snapin = any(op[0] == "snapin" for op in h["ops"])
+        if p in (2, 3, 4) and bits != 9 and (bits & 4) and has_crash and has_snapin and "C20-raft-snapshot-install-crash" in known:
+            return ("known", "C20-raft-snapshot-install-crash")
+        if p in (2, 3) and bits != 9 and (bits & 1) and has_crash and log_has_future_entry(h, t) and "C20-raft-replay-future-entry" in known:
             return ("known", "C20-raft-replay-future-entry")
-        if p == 4 and bits in (2, 3) and has_crash and "C20-raft-snapshot-unexecuted" in known:
+        if p in (2, 3, 4) and bits != 9 and (bits & 2) and has_crash and "C20-raft-snapshot-unexecuted" in known:
             return ("known", "C20-raft-snapshot-unexecuted")
         if p == 5 and bits != 9 and own_reproposal(h, t) and "C20-raft-new-leader-rebatches-delivered-tx" in known:
             return ("known", "C20-raft-new-leader-rebatches-delivered-tx")
